@@ -11,6 +11,7 @@ import (
 	"verif/luagen"
 	"verif/proto"
 	"verif/reflua"
+	"verif/refmodel"
 )
 
 // C07 — undefined-variable and unused-local warnings agree with the actual bindings.
@@ -192,8 +193,14 @@ func checkC07(c C07Case, env *Env) *Violation {
 				continue
 			}
 			if maybeAlias(d.Init) {
-				// local x = string["format"]: whether this counts as a library alias is unspecified
+				// local x = string["format"]: whether this counts as a library alias is unspecified,
+				// and with it whether later assignments to x are "only assigned"
 				markSoft(l)
+				for _, oc2 := range d.Occs {
+					if oc2.Kind == reflua.OWrite {
+						markSoft(spanLoc(f.Path, f.Text, oc2.Name.Span))
+					}
+				}
 			}
 			if _, isCall := d.Init.(*reflua.CallExp); isCall && callsRequire(d.Init) {
 				continue
@@ -324,51 +331,83 @@ func callsRequire(e reflua.Exp) bool {
 	return false
 }
 
-// inSuppressedIdiom: the read is an operand of and / or / == / ~= / not — idioms the server
-// suppresses on purpose in some shapes (x = x or v, if not x, x == nil); a don't-care class.
+// inSuppressedIdiom: the server deliberately reports nothing for a name that an `if` / `elseif`
+// condition tests with `not N` or `N == nil` (analysis.ignoreInfo: the name is remembered together
+// with its line and every read of it on that line is let through), and for `N = N or v`. Those reads
+// are a don't-care class. Everything else — operands of and / or / ~= / == <value>, while and until
+// conditions, `not N` outside an if condition — is expected to be reported like any other read.
 func inSuppressedIdiom(b *reflua.Binding, oc *reflua.Occ) bool {
+	text := b.Res.Src
+	lineOf := func(off int) int { l, _ := refmodel.PosOf(text, off); return l }
+	ocLine := lineOf(oc.Name.Off)
+	name := oc.Name.Text
 	found := false
-	var walkE func(e reflua.Exp, under bool)
-	walkE = func(e reflua.Exp, under bool) {
+	strip := func(e reflua.Exp) reflua.Exp {
+		for {
+			p, ok := e.(*reflua.ParenExp)
+			if !ok {
+				return e
+			}
+			e = p.X
+		}
+	}
+	isName := func(e reflua.Exp) bool {
+		ne, ok := strip(e).(*reflua.NameExp)
+		return ok && ne.Name.Text == name
+	}
+	// a function expression written inside an if condition is analysed with the "inside an if
+	// condition" state still set: the idiom is let through there as well
+	forceIf := 0
+	var walkE func(e reflua.Exp, inIf bool)
+	walkE = func(e reflua.Exp, inIf bool) {
+		inIf = inIf || forceIf > 0
 		switch t := e.(type) {
 		case nil:
-		case *reflua.NameExp:
-			if t.Name == oc.Name && under {
+		case *reflua.BinExp:
+			if inIf && t.Op == "==" && isName(t.L) {
+				if _, isNil := strip(t.R).(*reflua.NilExp); isNil && lineOf(t.ESpan().Off) <= ocLine && ocLine <= lineOf(t.ESpan().End) {
+					found = true
+				}
+			}
+			walkE(t.L, inIf)
+			walkE(t.R, inIf)
+		case *reflua.UnExp:
+			if inIf && t.Op == "not" && isName(t.X) && lineOf(t.ESpan().Off) <= ocLine && ocLine <= lineOf(t.ESpan().End) {
 				found = true
 			}
-		case *reflua.BinExp:
-			u := under
-			switch t.Op {
-			case "and", "or", "==", "~=":
-				u = true
-			}
-			walkE(t.L, u)
-			walkE(t.R, u)
-		case *reflua.UnExp:
-			walkE(t.X, under || t.Op == "not")
+			walkE(t.X, inIf)
 		case *reflua.ParenExp:
-			walkE(t.X, under)
+			walkE(t.X, inIf)
 		case *reflua.IndexExp:
-			walkE(t.Obj, under)
-			walkE(t.Key, false)
+			walkE(t.Obj, inIf)
+			walkE(t.Key, inIf)
 		case *reflua.CallExp:
-			walkE(t.Fn, under)
+			walkE(t.Fn, inIf)
 			for _, a := range t.Args {
-				walkE(a, false)
+				walkE(a, inIf)
 			}
 		case *reflua.TableExp:
 			for _, f := range t.Fields {
-				walkE(f.KeyExp, false)
-				walkE(f.Value, false)
+				walkE(f.KeyExp, inIf)
+				walkE(f.Value, inIf)
 			}
 		case *reflua.FuncExp:
+			if inIf {
+				forceIf++
+			}
 			walkB(t.Body, walkE)
+			if inIf {
+				forceIf--
+			}
 		}
 	}
-	selfAssignName = oc.Name.Text
+	selfAssignName = name
+	selfAssignLine = ocLine
+	selfAssignFound = false
+	selfAssignLineOf = lineOf
 	walkB(b.Res.Chunk, walkE)
 	selfAssignName = ""
-	return found
+	return found || selfAssignFound
 }
 
 // topStat returns the chunk-level statement that contains the offset.
@@ -381,46 +420,57 @@ func topStat(chunk *reflua.Block, off int) reflua.Stat {
 	return nil
 }
 
-// selfAssignName is the name inSuppressedIdiom currently looks for (single-threaded use).
-var selfAssignName string
+// state of the inSuppressedIdiom walk (single-threaded use)
+var (
+	selfAssignName   string
+	selfAssignLine   int
+	selfAssignFound  bool
+	selfAssignLineOf func(int) int
+)
 
 func walkB(blk *reflua.Block, walkE func(reflua.Exp, bool)) {
+	if blk == nil {
+		return
+	}
 	for _, s := range blk.Stats {
 		switch t := s.(type) {
 		case *reflua.LocalStat:
 			for _, e := range t.Exps {
 				walkE(e, false)
 			}
+		case *reflua.LocalFuncStat:
+			walkB(t.Func.Body, walkE)
+		case *reflua.FuncStat:
+			walkB(t.Func.Body, walkE)
 		case *reflua.AssignStat:
-			sameName := false
 			for _, e := range t.Targets {
 				walkE(e, false)
-				if ne, ok := e.(*reflua.NameExp); ok && selfAssignName != "" && ne.Name.Text == selfAssignName {
-					sameName = true
+				// `N = N or v` (and any read of N on the line of an assignment to N)
+				if ne, ok := e.(*reflua.NameExp); ok && selfAssignName != "" && ne.Name.Text == selfAssignName && selfAssignLineOf != nil {
+					if selfAssignLineOf(t.SSpan().Off) <= selfAssignLine && selfAssignLine <= selfAssignLineOf(t.SSpan().End) {
+						selfAssignFound = true
+					}
 				}
 			}
 			for _, e := range t.Exps {
-				// `x = x or v`, `x = x`: the server suppresses the warning for a read of the assigned name
-				walkE(e, sameName)
+				walkE(e, false)
 			}
 		case *reflua.CallStat:
 			walkE(t.Call, false)
 		case *reflua.DoStat:
 			walkB(t.Body, walkE)
 		case *reflua.WhileStat:
-			walkE(t.Cond, true)
+			walkE(t.Cond, false)
 			walkB(t.Body, walkE)
 		case *reflua.RepeatStat:
 			walkB(t.Body, walkE)
-			walkE(t.Cond, true)
+			walkE(t.Cond, false)
 		case *reflua.IfStat:
 			for i, c := range t.Conds {
 				walkE(c, true)
 				walkB(t.Blocks[i], walkE)
 			}
-			if t.Else != nil {
-				walkB(t.Else, walkE)
-			}
+			walkB(t.Else, walkE)
 		case *reflua.NumForStat:
 			walkE(t.Start, false)
 			walkE(t.Limit, false)
@@ -431,10 +481,6 @@ func walkB(blk *reflua.Block, walkE func(reflua.Exp, bool)) {
 				walkE(e, false)
 			}
 			walkB(t.Body, walkE)
-		case *reflua.FuncStat:
-			walkB(t.Func.Body, walkE)
-		case *reflua.LocalFuncStat:
-			walkB(t.Func.Body, walkE)
 		case *reflua.ReturnStat:
 			for _, e := range t.Exps {
 				walkE(e, false)
